@@ -1216,8 +1216,19 @@ impl DhtNetworkManager {
             hex::encode(key)
         );
 
-        let mut seen_peer_ids: HashSet<String> = HashSet::new();
+        // A peer is one point of the key space: entries are de-duplicated by DHT
+        // key, and every peer is named by the identifier it can be reached under
+        // (its transport peer id). Routing-table entries only carry the DHT key,
+        // so the transport id is looked up in the peer book.
+        let mut seen_keys: HashSet<Key> = HashSet::new();
         let mut all_nodes: Vec<DHTNode> = Vec::new();
+        let peer_ids_by_key: HashMap<Key, PeerId> = {
+            let peers = self.dht_peers.read().await;
+            peers
+                .values()
+                .map(|p| (p.dht_key, p.peer_id.clone()))
+                .collect()
+        };
 
         // 1. Check local routing table
         {
@@ -1225,17 +1236,22 @@ impl DhtNetworkManager {
             match dht_guard.find_nodes(&DhtKey::from_bytes(*key), count).await {
                 Ok(nodes) => {
                     for node in nodes {
-                        let id = node.id.to_string();
-                        if self.is_local_peer_id(&id) {
+                        let node_key = *node.id.as_bytes();
+                        let id = peer_ids_by_key
+                            .get(&node_key)
+                            .cloned()
+                            .unwrap_or_else(|| node.id.to_string());
+                        if self.is_local_peer_id(&id) || node_key == *self.local_dht_key.as_bytes()
+                        {
                             continue;
                         }
-                        if seen_peer_ids.insert(id.clone()) {
+                        if seen_keys.insert(node_key) {
                             all_nodes.push(DHTNode {
                                 peer_id: id,
                                 address: node.address,
-                                distance: None,
+                                distance: Some(node_key.to_vec()),
                                 reliability: node.capacity.reliability_score,
-                                cached_dht_key: Some(DhtKey::from_bytes(*node.id.as_bytes())),
+                                cached_dht_key: Some(DhtKey::from_bytes(node_key)),
                             });
                         }
                     }
@@ -1256,7 +1272,7 @@ impl DhtNetworkManager {
                 if self.is_local_peer_id(peer_id) {
                     continue;
                 }
-                if !seen_peer_ids.insert(peer_id.clone()) {
+                if !seen_keys.insert(peer_info.dht_key) {
                     continue;
                 }
                 let address = match peer_info.addresses.first() {
